@@ -65,7 +65,7 @@ func TestRAC_C20(t *testing.T) {
 		"return N + 1;", "return S;", "return L;", "return H;", "return B0;", "return F * 2;", "return Nothing;", "return 1 / 0;", "return len(S);", "return N > 2 && B0;",
 		"return [1, \"a\", 2.5, true];", "return {\"k\": N};", "if ( N > 2 ) { return \"big\"; } return \"small\";", "foreach x in L { if ( x == 1 ) { return x; } } return -1;",
 		"return 1.0;", "return -0.0;", "return 3 == 3.0;", "return \"a\\nb\";", "return S ~= /b/;", "function f(a) { return a * 2; } return f(N);", "x = 1;", "return;", "3 += 1;", "return (",
-		"return OPTIMIZE;", "return type(N);", "return Nested;", "return Nil;", "return keys(H);", "return 1 ? 2 : 3;", "return /x/;",
+		"return OPTIMIZE;", "return \"100%\";", "return [\"%d\", \"%s %v\"];", "return {\"%x\": \"50%%\"};", "return S + \"%!s\";", "return type(N);", "return Nested;", "return Nil;", "return keys(H);", "return 1 ? 2 : 3;", "return /x/;",
 	}
 	run := func(args ...string) (string, string, int, bool) {
 		ctx, cancel := context.WithTimeout(context.Background(), 20*time.Second)
